@@ -186,3 +186,35 @@ impl Drop for DropConnects {
         self.dropped.fetch_add(1, Ordering::SeqCst);
     }
 }
+
+/// Arguments and return values whose size the macro knows when it expands (it then uses fixed buffers instead of
+/// the growing one): tuples of tuples, tuples of arrays, options and chars — aggregates whose size is not their
+/// alignment.
+#[savefile_abi_exportable(version = 0)]
+pub trait Shapes {
+    fn nested(&self, a: ((f32, f32), (f32, f32))) -> ((u16, u16), (u16, u16), (u16, u16));
+    fn arrs(&self, a: ([u8; 4], [u8; 4]), b: (u8, (u32, u16))) -> ([u16; 3], u8);
+    fn wide(&self, a: (u8, u64), b: ((u8, u8, u8), u32), c: ((u64, u64), (u64, u64), (u64, u64))) -> (u64, (u64, u64, u64));
+    fn opt(&self, a: Option<(u32, u8)>, b: (bool, char)) -> (Option<u8>, (char, bool));
+    fn unit_like(&self, a: (), b: ((), u8)) -> ((), (u8, ()));
+}
+#[derive(Default)]
+pub struct ShapesImpl;
+impl Shapes for ShapesImpl {
+    fn nested(&self, a: ((f32, f32), (f32, f32))) -> ((u16, u16), (u16, u16), (u16, u16)) {
+        let b = |x: f32| (x.to_bits() >> 16) as u16;
+        ((b(a.0 .0), b(a.0 .1)), (b(a.1 .0), b(a.1 .1)), (b(a.0 .0 + a.1 .1), 7))
+    }
+    fn arrs(&self, a: ([u8; 4], [u8; 4]), b: (u8, (u32, u16))) -> ([u16; 3], u8) {
+        ([a.0[0] as u16 * 256 + a.1[3] as u16, (b.1 .0 >> 8) as u16, b.1 .1], a.0[1] ^ a.1[2] ^ b.0)
+    }
+    fn wide(&self, a: (u8, u64), b: ((u8, u8, u8), u32), c: ((u64, u64), (u64, u64), (u64, u64))) -> (u64, (u64, u64, u64)) {
+        (a.1 ^ (a.0 as u64) ^ (b.1 as u64) ^ (b.0 .1 as u64), (c.0 .0 ^ c.1 .1, c.1 .0 ^ c.2 .1, c.2 .0 ^ c.0 .1))
+    }
+    fn opt(&self, a: Option<(u32, u8)>, b: (bool, char)) -> (Option<u8>, (char, bool)) {
+        (a.map(|x| x.1 ^ (x.0 as u8)), (b.1, !b.0))
+    }
+    fn unit_like(&self, _a: (), b: ((), u8)) -> ((), (u8, ())) {
+        ((), (b.1.wrapping_add(1), ()))
+    }
+}
